@@ -144,6 +144,13 @@ func vrtSeedLedger(db *sql.DB, d *Pegnetd, sc vrtScenario, bals []uint64) {
 			k++
 		}
 	}
+	if sc.start >= specV202 {
+		// from 2.0 on the last holder snapshot is part of the persistent state (it becomes the
+		// "past" side of the next payout); seeded from 2.0.2 on only: before that a snapshot block
+		// without rates fails for holders (known finding D10) and the loop would retry for ever
+		vrtSetBalanceIn(tx, "snapshot_current", vrtAddr(0xC3), fat2.PTickerUSD, bals[7])
+		vrtSetBalanceIn(tx, "snapshot_past", vrtAddr(0xC3), fat2.PTickerUSD, bals[6])
+	}
 	d.Sync.Synced = sc.start
 	if err := d.Pegnet.InsertSynced(tx, d.Sync); err != nil {
 		panic(err)
@@ -263,6 +270,13 @@ func VerifSyncLoop() {
 		vrt.Cover("crashed")
 		// ---- a new process opens the database: it holds exactly the blocks up to its sync height
 		db2 := vrt.Reopen(db)
+		// a daemon that starts on an existing database first runs its schema code (createTables with
+		// its migrations, as Pegnet.Init does): that must leave the committed ledger as it is
+		atRest := vrt.Snapshot(db2)
+		if err := (&pegnet.Pegnet{DB: db2}).VrtCreateTables(); err != nil {
+			panic("start-up schema code: " + err.Error())
+		}
+		vrt.Assert("C02.start-up-leaves-the-committed-ledger-untouched", vrt.SameStore(atRest, vrt.Snapshot(db2)))
 		s := vrtSyncedHeight(db2)
 		vrt.ObserveI64("synced-after-crash", int64(s))
 		vrt.Assert("C02.crash-leaves-a-committed-height", s >= sc.start && s <= tip)
